@@ -157,3 +157,60 @@ def is_variant_test(cond, is_subject):
         a, b = strip_refs(d0[2]), strip_refs(d0[3])
         return (is_subject(a) and b[0] == "agg") or (is_subject(b) and a[0] == "agg")
     return False
+
+
+def subst_simplify(e, m):
+    """`subst` followed by re-simplification on the way up: a field of a tuple/struct literal is that
+    component, `*&x` is x, constant arithmetic is folded.  Needed when a key of `m` is replaced by a
+    structured value (the payload `(k - lo, &base[k])` of an enumerating iterator)."""
+    from .expr import mk_field, mk_deref, mk_ref, mk_bin
+    if not isinstance(e, tuple):
+        return e
+    try:
+        if e in m:
+            return m[e]
+    except TypeError:
+        pass
+    out = tuple(subst_simplify(x, m) if isinstance(x, tuple) else x for x in e)
+    if out and isinstance(out[0], str):
+        k = out[0]
+        if k == "field" and len(out) == 3:
+            base = out[1]
+            if base[0] == "agg" and base[1] == "tuple":
+                return mk_field(base, out[2])
+            return out
+        if k == "deref" and len(out) == 2:
+            return mk_deref(out[1])
+        if k == "ref" and len(out) == 2:
+            return mk_ref(out[1])
+        if k == "bin" and len(out) == 4:
+            return mk_bin(out[1], out[2], out[3])
+    return out
+
+
+def strip_call_locs(e):
+    """Value-numbering expressions (wa/expr.py) tag impure calls with their location; segment
+    expressions do not.  Drop the tags so that both languages compare equal."""
+    if not isinstance(e, tuple):
+        return e
+    if e and e[0] == "call" and len(e) == 4:
+        return ("call", e[1], tuple(strip_call_locs(a) for a in e[2]), None)
+    if e and e[0] in ("var", "mem"):
+        return e
+    return tuple(strip_call_locs(x) if isinstance(x, tuple) else x for x in e)
+
+
+def segment_asserts(body, blocks):
+    """[(bb, assert kind, operand expressions at that point)] for the asserts on a segment."""
+    px = PathExprs(body)
+    out = []
+    for bb in blocks:
+        for i, st in enumerate(body.stmts(bb)):
+            if st["k"] == "assign" and not st["place"]["proj"]:
+                px.env[st["place"]["local"]] = px.rvalue(st["rv"], (bb, i))
+        t = body.term(bb)
+        if t["k"] == "call" and not t["dest"]["proj"]:
+            px.env[t["dest"]["local"]] = px.call_expr(t, None)
+        elif t["k"] == "assert":
+            out.append((bb, t["assert_kind"], [px.operand(o, body.term_loc(bb)) for o in t.get("ops", [])]))
+    return out
